@@ -371,6 +371,10 @@ func (i *interpreter) slice(instr *ssa.Slice, x, lo, hi, max value) value {
 		Cap = cap(a)
 	}
 	intT := types.Typ[types.Int]
+	if save := i.ex.concCap; Cap+2 > save && Cap < 4096 {
+		i.ex.concCap = Cap + 2
+		defer func() { i.ex.concCap = save }()
+	}
 	l := int64(0)
 	if lo != nil {
 		l = i.concInt(lo, intT, "slice low bound")
